@@ -39,7 +39,7 @@ BUILDERS_ASSUMED = ("builders: both are verified as wholes -- the loop plumbing 
                     "previous one containing the record's strings), and wf_cip for every class handed to the tail. ASSUMED in both: "
                     "`mapping.iter().filter_map(Result::ok).peekable()` behind a shim (ghost: ok_records(mapping), the Ok items of the stream of unit u7), "
                     "HashMap/BTreeMap entry API, HashSet::insert, Peekable::{next,peek}, watto::StringTable::insert (offsets are stable, the inserted string is present); "
-                    "NOT proved: that the two abstract folds denote the same retrace answers (the refinement between `built` and `w_run` is by inspection of two parallel definitions)")
+                    "the refinement between the two abstract folds `built` and `w_run` (same class keys, same abstract entries at the same positions) is proved as a pure lemma in unit u23")
 
 PROPS = {
     "C01": {
@@ -70,7 +70,7 @@ PROPS = {
     },
     "C03": {
         "title": "Parameter-based retrace",
-        "units": [U1F, U2F, U8, U6M, U6W, U13, U14, U18],
+        "units": [U1F, U2F, U8, U6M, U6W, U13, U14, U18, U23],
         "kani": [],
         "technique": "Verus contracts: iterate_without_lines == head of by_params(); remap_frame(by params) == exact (name, params) block",
         "level_text": "Proof that a frame carrying parameters is answered from exactly the entries whose (obfuscated name, params) match, one frame "
@@ -80,7 +80,7 @@ PROPS = {
     },
     "C04": {
         "title": "Class lookup exact; method lookup never guesses",
-        "units": [U1F, U2F, U6M, U6W, U13, U14, U18],
+        "units": [U1F, U2F, U6M, U6W, U13, U14, U18, U23],
         "kani": [],
         "technique": "Verus contracts on get_class / remap_class / remap_method (iff-unanimous postcondition), both readers",
         "level_text": "Proof that remap_class answers iff a class with exactly that obfuscated name exists, and remap_method answers (class, m) iff "
@@ -335,9 +335,11 @@ PROPS["C02"]["level_text"] = (
     "and the reader accepts every such file and reads back exactly the emitted tables (u20, pure lemma over the two specifications, modulo the Pod round trip). "
     "Pure lemma (u13): the line-based content of the mapper (class fields and every per-name entry list) is the same with and without the parameter index. "
     "Text remapping and signature deobfuscation are equal for mapper and cache relative to equal remap_class / remap_frame answers (C07, C16). "
-    "Pure lemma (u23): for every method record in the domain, abs_member(table bytes, stored_member(..)) == abs_mm(stored_entry(..)) -- the two builders store the same abstract entry, given the string-table round trip. "
-    "NOT proved: that the two abstract folds `built` and `w_run` put these entries at the same positions (two parallel definitions), and what the string table returns for an offset (watto).")
-PROPS["C02"]["not_decided"] = ["the positional refinement between the two abstract folds `built` (mapper) and `w_run` (writer) as a lemma (the per-record entries are proved equal in u23)",
+    "REFINEMENT (u23, pure lemmas over the definitions cut out of the units that use them): for every mapping in the domain and every table sequence allowed by u14, built(records, true) and the classes the writer collects "
+    "have the same class keys and, under every key, related class fields and the same abstract entries at the same positions, per method name and per (method name, arguments) -- by induction over the record stream with one step lemma per record kind "
+    "(the Header step is the obligation that exposed defect D7). Together: mapper == built(records) (u13) ~ collected classes (u14, u23) -> canonical bytes (u8) -> parse reads the same tables back (u20) -> both readers answer through one specification (u1 / u2). "
+    "ASSUMED along this chain: the string-table and Pod round trips of watto, BTreeMap iteration order, and that the class section so produced is sorted by resolved name (what the reader's binary search needs).")
+PROPS["C02"]["not_decided"] = ["that the emitted class section is strictly sorted by the names the string section resolves (the reader's binary search relies on it; ingredients in u14 / u8, statement not written)",
                                "that watto's string table returns the inserted string for the offset it handed out (offset_of / tbl)"]
 PROPS["C09"]["level_text"] = PROPS["C09"]["level_text"].replace(
     "Sortedness of classes/members and the contents of the string section come from BTreeMap iteration order and watto::StringTable inside the collection loop and are assumed; `test()` accepting every such file is not decided.",
